@@ -622,7 +622,7 @@ def all_ops(ref, small=True):
         yield ['removeBlocks', t, ['a', 'a']]
         yield ['setAttribute', t, 'title', 'x"y']
         yield ['setAttribute', t, 'ID', 'v']
-        for bad in ('', '1a', 'a b', 'a$'):
+        for bad in ('', '1a', 'a b', 'a$', 'a\n'):
             yield ['setAttribute', t, bad, 'v']
 
 
@@ -820,7 +820,7 @@ def random_op(rng, ref):
         return [o, t, [rng.choice(pool) for _ in range(rng.randint(0, 3))]]
     if o == 'setAttribute':
         if rng.random() < 0.35:
-            return [o, t, rng.choice(['', '1a', 'a b', 'a$', '-x', 'a"']), 'v']
+            return [o, t, rng.choice(['', '1a', 'a b', 'a$', '-x', 'a"', 'title\n', 'data-x\n', '_y\n']), 'v']
         return [o, t, rng.choice(['title', 'ID', 'data-x', '_y', 'id']), rng.choice(['v', 'x"y', '', 'a b'])]
     raise ValueError(o)
 
